@@ -323,6 +323,20 @@ fn c09_closest_setup_b3() {
     closest_setup(3);
 }
 
+#[kani::proof]
+#[kani::unwind(21)]
+#[kani::stub(std::hash::RandomState::new, crate::verif::stub_random_state_new)]
+fn c09_closest_setup_b1() {
+    closest_setup(1);
+}
+
+#[kani::proof]
+#[kani::unwind(21)]
+#[kani::stub(std::hash::RandomState::new, crate::verif::stub_random_state_new)]
+fn c09_closest_setup_b2() {
+    closest_setup(2);
+}
+
 // ---------------------------------------------------------------------------------------------
 // C08 (table level, kernels): the arithmetic that decides where a node goes and when a bucket
 // may split. Loop-free / 20-iteration integer code, all inputs symbolic.
